@@ -522,7 +522,7 @@ def gen_body(rng: random.Random) -> tuple[str, bytes, str | None]:
         exp = v.get("reason") if isinstance(v, dict) and isinstance(v.get("reason"), str) and v.get("reason") in closed else None
         return "json_" + type(v).__name__, json.dumps(v).encode(), exp
     if r < 0.52:
-        d = rng.choice([3, 50, 900, 1100, 5000, 100_000])
+        d = rng.choice([3, 50, 900, 1100, 5000, 20_000, 100_000])
         open_, close = rng.choice([("[", "]"), ('{"a":', "}")])
         inner = b"1" if rng.random() < 0.5 else b""
         return f"deep_nesting_{'<1000' if d < 1000 else '>=1000'}", open_.encode() * d + inner + close.encode() * (d if inner else 0), None
@@ -656,7 +656,7 @@ def _client_fuzz(job: dict[str, Any]) -> dict[str, Any]:
     return chk.to_result()
 
 
-def main(tier: str, seed: int) -> int:
+def _run(tier: str, seed: int) -> Check:
     chk = Check(PID, tier, seed, level=CATEGORY, rule=RULE)
     chk.require(
         "rejections",
@@ -682,18 +682,37 @@ def main(tier: str, seed: int) -> int:
     rng = random.Random(seed)
     trees = fixed_trees()
     rng.shuffle(trees)
-    nsh = shard.ncpu()
-    jobs: list[dict[str, Any]] = []
-    rnd = 500 if tier == "quick" else 8000
-    parts = shard.split(trees, nsh if tier == "quick" else nsh * 2)
+    jobs: list[dict[str, Any]] = []  # fixed shard counts: results do not depend on the worker count
+    rnd = 500 if tier == "quick" else 24000
+    parts = shard.split(trees, 8 if tier == "quick" else 32)
     for i, part in enumerate(parts):
         jobs.append({"kind": "server", "tier": tier, "seed": seed * 1000 + i, "trees": part, "random_trees": rnd // len(parts) + 1, "state_cap": 8 if tier == "quick" else 24, "client_every": 7 if tier == "quick" else 5})
-    nfz = 2 if tier == "quick" else nsh
+    nfz = 2 if tier == "quick" else 12
     for i in range(nfz):
-        jobs.append({"kind": "client_fuzz", "tier": tier, "seed": seed * 1000 + 500 + i, "count": (3000 if tier == "quick" else 120_000) // nfz, "e2e_every": 3})
+        jobs.append({"kind": "client_fuzz", "tier": tier, "seed": seed * 1000 + 500 + i, "count": (3000 if tier == "quick" else 300_000) // nfz, "e2e_every": 3})
     for res in shard.pmap("checks.c21", "run_shard", jobs, timeout=600 if tier == "quick" else 2400):
         chk.merge(res)
     chk.extra["fixed_trees"] = len(trees)
     chk.exhaustive["single leaves; chains of 2 over 10 leaf behaviours; chains of 3 over 5; require_all x mode x 10 inners"] = True
     chk.exhaustive["random trees / client bodies"] = False
-    return chk.finish()
+    return chk
+
+
+def main(tier: str, seed: int) -> int:
+    return _run(tier, seed).finish()
+
+
+def replay(path: str) -> int:
+    """Re-execute the run (tier, seed) recorded in a replay file; the recorded mechanism key must fire again."""
+    import json
+
+    with open(path) as fh:
+        rec = json.load(fh)
+    chk = _run(rec["tier"], int(rec["seed"]))
+    v = chk.violations.get(rec["key"])
+    if v is not None:
+        print(f"VIOLATION property={PID} replay={path}")
+        print(f"  key={rec['key']}: reproduced ({v['count']}x): {v['what']}")
+        return 1
+    print(f"INCONCLUSIVE property={PID} reason=replay of {rec['key']} did not reproduce (other keys: {sorted(chk.violations)})")
+    return 2
